@@ -170,6 +170,19 @@ def collectSegComposite {M : Type} [AddOp M] (srcs : List CompSrc) (size : Nat) 
     (docs : List Doc) : KMap (Nat × Inter M sub) :=
   compTrim size after (collect (.composite srcs size after sub) docs)
 
+/-- mirrors: intermediate_agg_result.rs::IntermediateCompositeBucketResult::merge_fruits — merge
+the maps, then `trim` only when more than `2 * target_size` entries are held -/
+def compMergeFruits {V : Type} (f : (Nat × V) → (Nat × V) → (Nat × V)) (size : Nat) (after : Option Int)
+    (a b : KMap (Nat × V)) : KMap (Nat × V) :=
+  let m := KMap.merge f a b
+  if m.entries.length > 2 * size then compTrim size after m else m
+
+/-- the merge of a trimming schedule decided by an arbitrary predicate on the merged map -/
+def compMergeWhen {V : Type} (dec : KMap (Nat × V) → Bool) (f : (Nat × V) → (Nat × V) → (Nat × V)) (size : Nat)
+    (after : Option Int) (a b : KMap (Nat × V)) : KMap (Nat × V) :=
+  let m := KMap.merge f a b
+  if dec m then compTrim size after m else m
+
 /-- mirrors: term_agg/mod.rs::into_intermediate_bucket_result + cut_off_buckets: when a segment
 holds more than `segment_size` distinct terms only the first `segment_size` in request order are
 kept, the cut doc counts go to `sum_other_doc_count`, and the doc count of the first cut bucket
